@@ -90,6 +90,8 @@ type rec struct {
 	hoisted   []string
 	// aliases: locals introduced by a refactoring as names for a pure sub-expression (`k := tla.MakeString("from")`)
 	aliases map[types.Object][]string
+	// sliceAliases: locals naming a slice literal of values (index lists, record fields)
+	sliceAliases map[types.Object]ast.Expr
 	// strArgs: string parameters of a helper being read in place, bound to the literal the caller passed
 	strArgs map[types.Object]string
 	// consts: package-level variables with an initialiser that nothing assigns (hoisted constants)
@@ -100,6 +102,10 @@ type rec struct {
 	decls map[*types.Func]*ast.FuncDecl
 	inlining int
 	markers  []string
+	// withNames: the names the specification binds with `with` in the section being recognised (canonical spelling)
+	withNames map[string]bool
+	// SpecWith: section name -> with-bound names of the specification
+	SpecWith map[string]map[string]bool
 }
 
 func (r *rec) bad(n ast.Node, format string, args ...any) {
@@ -141,6 +147,7 @@ func (r *rec) reset(prefix string) {
 	r.tempOwner = map[types.Object]ast.Stmt{}
 	r.hoisted = nil
 	r.aliases = map[types.Object][]string{}
+	r.sliceAliases = map[types.Object]ast.Expr{}
 	r.strArgs = map[types.Object]string{}
 	r.markers = nil
 }
@@ -348,6 +355,16 @@ func (r *rec) condToks(e ast.Expr) []string {
 	return r.boolExpr(e)
 }
 
+// isShortRead: `v, err := iface.Read(h, idx)` / `v, err = iface.Read(h, idx)`.
+func (r *rec) isShortRead(st ast.Stmt) bool {
+	as, ok := st.(*ast.AssignStmt)
+	if !ok || len(as.Lhs) != 2 || len(as.Rhs) != 1 {
+		return false
+	}
+	call, isCall := unparen(as.Rhs[0]).(*ast.CallExpr)
+	return isCall && r.isMethod(call, pkgDistsys, "ArchetypeInterface", "Read")
+}
+
 // isAliasDef: `name := <expression that is not an ArchetypeInterface call>`.
 func (r *rec) isAliasDef(st ast.Stmt) bool {
 	as, ok := st.(*ast.AssignStmt)
@@ -468,19 +485,31 @@ func (r *rec) binders(list []ast.Stmt, args types.Object) (names [][]string, res
 	idx := -1
 	i := 0
 	for i < len(list) {
-		ds, ok := list[i].(*ast.DeclStmt)
-		if !ok {
+		var bname *ast.Ident
+		var bval ast.Expr
+		switch st := list[i].(type) {
+		case *ast.DeclStmt:
+			gd := st.Decl.(*ast.GenDecl)
+			if gd.Tok != token.VAR || len(gd.Specs) != 1 {
+				break
+			}
+			vs := gd.Specs[0].(*ast.ValueSpec)
+			if len(vs.Names) != 1 || len(vs.Values) != 1 {
+				break
+			}
+			bname, bval = vs.Names[0], vs.Values[0]
+		case *ast.AssignStmt:
+			// `x := args[i]`: the binder without the `var x tla.Value = ...; _ = x` ceremony
+			if st.Tok == token.DEFINE && len(st.Lhs) == 1 && len(st.Rhs) == 1 {
+				if id, isId := st.Lhs[0].(*ast.Ident); isId && id.Name != "_" {
+					bname, bval = id, st.Rhs[0]
+				}
+			}
+		}
+		if bname == nil {
 			break
 		}
-		gd := ds.Decl.(*ast.GenDecl)
-		if gd.Tok != token.VAR || len(gd.Specs) != 1 {
-			break
-		}
-		vs := gd.Specs[0].(*ast.ValueSpec)
-		if len(vs.Names) != 1 || len(vs.Values) != 1 {
-			break
-		}
-		val := unparen(vs.Values[0])
+		val := unparen(bval)
 		tupleElem := false
 		if call, ok := val.(*ast.CallExpr); ok && r.isMethod(call, pkgTLA, "Value", "ApplyFunction") {
 			val = unparen(unparen(call.Fun).(*ast.SelectorExpr).X)
@@ -498,7 +527,7 @@ func (r *rec) binders(list []ast.Stmt, args types.Object) (names [][]string, res
 		if which == -2 {
 			break
 		}
-		name := r.canon.Ident(vs.Names[0].Name)
+		name := r.canon.Ident(bname.Name)
 		if which != idx {
 			names = append(names, nil)
 			idx = which
@@ -551,6 +580,12 @@ func (r *rec) closureBody(lit *ast.FuncLit, wantBool bool) (bind [][]string, bod
 }
 
 func (r *rec) sliceElems(e ast.Expr) []ast.Expr {
+	// a slice built once and named (`atI := []tla.Value{i}`)
+	if id, isId := unparen(e).(*ast.Ident); isId {
+		if lit, has := r.sliceAliases[r.info.ObjectOf(id)]; has {
+			e = lit
+		}
+	}
 	cl, ok := unparen(e).(*ast.CompositeLit)
 	if !ok {
 		if id, ok := unparen(e).(*ast.Ident); ok && id.Name == "nil" {
@@ -626,7 +661,7 @@ func (r *rec) expr(e ast.Expr) []string {
 		o := r.info.ObjectOf(x)
 		if t, ok := r.temps[o]; ok {
 			r.uses[o]++
-			if d, known := r.tempDepth[o]; known && (r.depth != d || (r.cur[d] != r.tempOwner[o] && !isReadTempDecl(r.cur[d]) && !r.isAliasDef(r.cur[d]))) {
+			if d, known := r.tempDepth[o]; known && (r.depth != d || (r.cur[d] != r.tempOwner[o] && !isReadTempDecl(r.cur[d]) && !r.isAliasDef(r.cur[d]) && !r.isShortRead(r.cur[d]))) {
 				r.hoisted = append(r.hoisted, strings.Join(t, " "))
 			}
 			return t
@@ -1205,6 +1240,10 @@ func (r *rec) stmts(list []ast.Stmt) []string {
 						j += 3
 						continue
 					}
+					if j+1 < len(list) && r.isShortRead(list[j]) && isErrCheck(list[j+1]) {
+						j += 2
+						continue
+					}
 					if r.isAliasDef(list[j]) || isBlankAssign(list[j]) {
 						j++
 						continue
@@ -1249,16 +1288,28 @@ func (r *rec) stmts(list []ast.Stmt) []string {
 				if !okCond || is.Else != nil {
 					r.bad(is, "the empty-set abort of %s is not guarded by %s.AsSet().Len() == 0", name.Name, name.Name)
 				}
-				ds, ok := list[i+2].(*ast.DeclStmt)
-				if !ok {
+				var selName *ast.Ident
+				var selVal ast.Expr
+				switch st := list[i+2].(type) {
+				case *ast.DeclStmt:
+					if vs2, isVS := st.Decl.(*ast.GenDecl).Specs[0].(*ast.ValueSpec); isVS && len(vs2.Names) == 1 && len(vs2.Values) == 1 {
+						selName, selVal = vs2.Names[0], vs2.Values[0]
+					}
+				case *ast.AssignStmt:
+					if st.Tok == token.DEFINE && len(st.Lhs) == 1 && len(st.Rhs) == 1 {
+						if id, isId := st.Lhs[0].(*ast.Ident); isId {
+							selName, selVal = id, st.Rhs[0]
+						}
+					}
+				}
+				if selName == nil {
 					r.bad(x, "set temporary %s is not followed by the element selection", name.Name)
 				}
-				vs2 := ds.Decl.(*ast.GenDecl).Specs[0].(*ast.ValueSpec)
-				sel, ok := unparen(vs2.Values[0]).(*ast.CallExpr)
+				sel, ok := unparen(selVal).(*ast.CallExpr)
 				if !ok || !r.isMethod(sel, pkgTLA, "Value", "SelectElement") || r.obj(unparen(sel.Fun).(*ast.SelectorExpr).X) != obj {
 					r.bad(x, "element selection does not select from %s", name.Name)
 				}
-				out = append(out, "WITHSET", r.canon.Ident(vs2.Names[0].Name), "\\in")
+				out = append(out, "WITHSET", r.canon.Ident(selName.Name), "\\in")
 				out = append(out, set...)
 				out = append(out, ";")
 				i += 2
@@ -1273,7 +1324,20 @@ func (r *rec) stmts(list []ast.Stmt) []string {
 			call, ok := unparen(x.Rhs[0]).(*ast.CallExpr)
 			if x.Tok == token.DEFINE && len(x.Lhs) == 1 && (!ok || !r.isIfaceCall(call)) {
 				// `name := <pure expression>`: a local name for a sub-expression
+				if id, isId := x.Lhs[0].(*ast.Ident); isId && r.countAssignments(r.info.Defs[id]) == 0 && r.withNames[r.canon.Ident(id.Name)] {
+					// the specification binds this name with `with`: the binding written with `:=`
+					out = append(out, "WITH", r.canon.Ident(id.Name), "=")
+					out = append(out, r.expr(x.Rhs[0])...)
+					out = append(out, ";")
+					continue
+				}
 				if id, isId := x.Lhs[0].(*ast.Ident); isId && r.countAssignments(r.info.Defs[id]) == 0 {
+					if cl, isLit := unparen(x.Rhs[0]).(*ast.CompositeLit); isLit {
+						if _, isSlice := r.info.TypeOf(cl).Underlying().(*types.Slice); isSlice {
+							r.sliceAliases[r.info.Defs[id]] = cl
+							continue
+						}
+					}
 					if b, isBasic := r.info.TypeOf(x.Rhs[0]).Underlying().(*types.Basic); isBasic && b.Kind() == types.Bool {
 						r.aliases[r.info.Defs[id]] = r.condToks(unparen(x.Rhs[0]))
 					} else {
@@ -1319,6 +1383,10 @@ func (r *rec) stmts(list []ast.Stmt) []string {
 					for j < len(list) {
 						if j+2 < len(list) && isReadTempDecl(list[j]) {
 							j += 3
+							continue
+						}
+						if j+1 < len(list) && r.isShortRead(list[j]) && isErrCheck(list[j+1]) {
+							j += 2
 							continue
 						}
 						if r.isAliasDef(list[j]) || isBlankAssign(list[j]) {
@@ -1502,6 +1570,13 @@ func (r *rec) stmts(list []ast.Stmt) []string {
 				t, _ := r.str(call.Args[0])
 				r.targets = append(r.targets, GoTarget{"goto", t, call.Pos()})
 				out = append(out, "GOTO", r.local(t, call), ";")
+			case r.isMethod(call, pkgDistsys, "ArchetypeInterface", "Write") && r.inlining > 0:
+				// the last statement of a helper read in place: write, and hand the error to the caller's check
+				out = append(out, "ASSIGN", r.handleName(call.Args[0], call))
+				out = append(out, r.indices(call.Args[1])...)
+				out = append(out, ":=")
+				out = append(out, r.expr(call.Args[2])...)
+				out = append(out, ";")
 			case r.isMethod(call, pkgDistsys, "ArchetypeInterface", "Return"):
 				out = append(out, "RETURN", ";")
 			case r.isMethod(call, pkgDistsys, "ArchetypeInterface", "Call"), r.isMethod(call, pkgDistsys, "ArchetypeInterface", "TailCall"):
@@ -1605,6 +1680,7 @@ func (r *rec) section(name string, lit *ast.FuncLit) (sec *GoSection) {
 		}
 	}()
 	r.body = lit.Body
+	r.withNames = r.SpecWith[name]
 	sec.Stream = r.stmts(lit.Body.List)
 	sec.Targets = r.targets
 	for o, n := range r.uses {
